@@ -107,4 +107,33 @@ theorem step_tid_has_work {locked : Bool} {prog : Tid → List (σ → σ)} {m0 
     cases h' : s.pc (tidOf l) <;> simp [h', inCS] at hc ⊢
   cases l <;> simp only [tidOf] at hpc hr <;> simp [step?, hpc, hr] at h
 
+/-- a property that every section keeps, and that the section `f0` of goroutine `t0` establishes, holds after every serial
+    execution in which `t0` has run all its sections -/
+theorem serial_establishes (P : σ → Prop) (prog : Tid → List (σ → σ)) (hS : ∀ t, ∀ f ∈ prog t, ∀ m, P m → P (f m))
+    (t0 : Tid) (f0 : σ → σ) (hf0 : f0 ∈ prog t0) (hE : ∀ m, P (f0 m)) (sched : List Tid) (m : σ)
+    (hdone : (serial prog sched m).2 t0 = []) : P (serial prog sched m).1 := by
+  induction sched generalizing prog m with
+  | nil =>
+    simp only [serial] at hdone
+    rw [hdone] at hf0; cases hf0
+  | cons t sched ih =>
+    simp only [serial] at hdone ⊢
+    split at hdone
+    · next f r hf =>
+      have hS' : ∀ u, ∀ g ∈ upd prog t r u, ∀ m', P m' → P (g m') := by
+        intro u g hg m' hm'
+        by_cases e : u = t
+        · subst e; simp only [upd_same] at hg
+          exact hS u g (by rw [hf]; exact List.mem_cons_of_mem _ hg) m' hm'
+        · rw [upd_other _ _ e] at hg; exact hS u g hg m' hm'
+      by_cases e : t0 = t
+      · subst e
+        rw [hf] at hf0
+        rcases List.mem_cons.mp hf0 with h | h
+        · subst h
+          exact serial_preserves P (upd prog t0 r) hS' sched (f0 m) (hE m)
+        · exact ih (upd prog t0 r) hS' (by simp only [upd_same]; exact h) (f m) hdone
+      · exact ih (upd prog t r) hS' (by rw [upd_other _ _ e]; exact hf0) (f m) hdone
+    · exact ih prog hS hf0 m hdone
+
 end CV.Locked
